@@ -1,6 +1,6 @@
 import json, sys
 pid, n = sys.argv[1], sys.argv[2]
-T = open({'seed3': '/verif/tools/prompts/seed3_agent.md', 'seed4': '/verif/tools/prompts/seed4_agent.md', 'seed5': '/verif/tools/prompts/seed5_agent.md'}.get(sys.argv[3] if len(sys.argv) > 3 else '', '/verif/tools/prompts/seed_agent.md')).read()
+T = open({'seed3': '/verif/tools/prompts/seed3_agent.md', 'seed4': '/verif/tools/prompts/seed4_agent.md', 'seed5': '/verif/tools/prompts/seed5_agent.md', 'seed6': '/verif/tools/prompts/seed6_agent.md'}.get(sys.argv[3] if len(sys.argv) > 3 else '', '/verif/tools/prompts/seed_agent.md')).read()
 for l in open('/verif/properties.jsonl'):
     p = json.loads(l)
     if p['id'] == pid:
